@@ -266,6 +266,7 @@ def gen_ledger(rng, ntxn=10, with_queries=True, with_pad=True, start_year=2019, 
             f'{ed} note Assets:Épargne:Livret-A "same day, first"',
             f'{ed} note Assets:Épargne:Livret-A "same day, second"',
             f'{ed + datetime.timedelta(days=1)} balance Assets:Épargne:Livret-A  -4.505 ~ 0.01 EUR',
+            f'{ed + datetime.timedelta(days=1)} balance Assets:Crypto  0 EUR',
             f'{ed + datetime.timedelta(days=1)} event "location" "Zürich"',
             f'{ed + datetime.timedelta(days=2)} price T-BILL 99.01 USD',
             f'{ed + datetime.timedelta(days=2)} price BTC.X 1234.5678 USD',
